@@ -5,61 +5,158 @@ package limit
 // one key on a miniredis server (real Lua interpreter) and reports what every call returned.
 // White-box only to READ TokenLimiter.redisAlive / monitorStarted (instead of sleeping a
 // guessed time after the store comes back).
+//
+// Outages and store faults are produced by a miniredis pre-hook: while "down" every command
+// (PING included) gets an error reply; an armed fault answers the ONE EVALSHA/EVAL of a chosen
+// call with a forged reply instead of executing it.  Request contexts are part of the case:
+// Background, cancelled right after the call returned ("live"), with a deadline that has passed by
+// the time the store recovers ("deadline"), already cancelled when the call is made ("cancelled").
 
 import (
 	"bufio"
+	"context"
 	"encoding/json"
 	"errors"
 	"os"
+	"strconv"
+	"strings"
+	"sync"
 	"sync/atomic"
 	"testing"
 	"time"
 
 	"github.com/alicebob/miniredis/v2"
+	"github.com/alicebob/miniredis/v2/server"
 	"github.com/zeromicro/go-zero/core/breaker"
 	"github.com/zeromicro/go-zero/core/logx"
 	"github.com/zeromicro/go-zero/core/stores/redis"
 )
 
 type verifCase struct {
-	ID     int     `json:"id"`
-	Kind   string  `json:"kind"` // "period" | "token"
-	Period int     `json:"period"`
-	Quota  int     `json:"quota"`
-	Lims   int     `json:"lims"`
-	Align  bool    `json:"align"`
-	Keys   []string `json:"keys"`
-	Rate   int     `json:"rate"`
-	Burst  int     `json:"burst"`
-	N      int     `json:"n"`
-	BaseMs int64   `json:"base_ms"`
-	Hard   bool    `json:"hard"` // outages by Close/Restart instead of SetError
-	Ops    [][]any `json:"ops"`
+	ID      int      `json:"id"`
+	Kind    string   `json:"kind"` // "period" | "token"
+	Period  int      `json:"period"`
+	Quota   int      `json:"quota"`
+	Lims    int      `json:"lims"`
+	Align   bool     `json:"align"`
+	Prefix  string   `json:"prefix"`
+	Keys    []string `json:"keys"`
+	Rate    int      `json:"rate"`
+	Burst   int      `json:"burst"`
+	N       int      `json:"n"`
+	Key     string   `json:"key"`
+	BaseMs  int64    `json:"base_ms"`
+	Hard    bool     `json:"hard"`    // outages by Close/Restart instead of error replies
+	Wall    bool     `json:"wall"`    // token: wall-clock case (Allow / AllowCtx use time.Now())
+	Breaker bool     `json:"breaker"` // may push go-zero's circuit breaker over its threshold
+	Ops     [][]any  `json:"ops"`
 }
 
 type verifOut struct {
 	ID        int    `json:"id"`
 	Obs       []any  `json:"obs"`
 	Disturbed bool   `json:"disturbed,omitempty"`
-	BaseMs    int64  `json:"base_ms"`          // period cases: the model's initial clock
+	BaseMs    int64  `json:"base_ms"`          // period cases / wall cases: the model's initial clock
 	Offset    int    `json:"offset,omitempty"` // aligned period cases: zone offset read by the executor
 	Err       string `json:"err,omitempty"`
 }
 
 func vnum(v any) int64 { return int64(v.(float64)) }
 
+func vopts(op []any, at int) map[string]any {
+	if len(op) > at {
+		if m, ok := op[at].(map[string]any); ok {
+			return m
+		}
+	}
+	return nil
+}
+
+func vstr(m map[string]any, k string) string {
+	if v, ok := m[k].(string); ok {
+		return v
+	}
+	return ""
+}
+
 // go-zero caches one go-redis client (and its circuit breaker) per address for the life of the
 // process, and the kernel hands a just-closed port out again: closing a case's server would let
 // a later case inherit the breaker statistics of an earlier one.  Servers are therefore kept
 // open until the whole run is over.
-var verifServers []*miniredis.Miniredis
+var (
+	verifServers   []*miniredis.Miniredis
+	verifServersMu sync.Mutex
+)
 
-func verifPark(mr *miniredis.Miniredis) { verifServers = append(verifServers, mr) }
+func verifPark(mr *miniredis.Miniredis) {
+	verifServersMu.Lock()
+	verifServers = append(verifServers, mr)
+	verifServersMu.Unlock()
+}
 
 type verifStore struct {
 	mr   *miniredis.Miniredis
 	hard bool
 	down bool
+
+	mu    sync.Mutex
+	hdown bool   // hook: every command fails
+	armed string // hook: forged reply for the next EVALSHA / EVAL
+	hits  int
+	pings int // PINGs of monitor goroutines that failed during an outage
+}
+
+func (s *verifStore) hook(c *server.Peer, cmd string, args ...string) bool {
+	s.mu.Lock()
+	a, d := s.armed, s.hdown
+	ev := cmd == "EVALSHA" || cmd == "EVAL"
+	if a != "" && ev {
+		s.hits++
+	}
+	s.mu.Unlock()
+	if a != "" && ev {
+		switch {
+		case a == "err":
+			c.WriteError("ERR verif fault")
+		case a == "nil":
+			c.WriteNull()
+		case strings.HasPrefix(a, "int:"):
+			n, _ := strconv.Atoi(a[4:])
+			c.WriteInt(n)
+		case strings.HasPrefix(a, "bulk:"):
+			c.WriteBulk(a[5:])
+		case strings.HasPrefix(a, "status:"):
+			c.WriteInline(a[7:])
+		default:
+			c.WriteError("ERR verif unknown fault")
+		}
+		return true
+	}
+	if d {
+		if cmd == "PING" {
+			s.mu.Lock()
+			s.pings++
+			s.mu.Unlock()
+		}
+		c.WriteError("ERR verif outage")
+		return true
+	}
+	return false
+}
+
+func (s *verifStore) install() { s.mr.Server().SetPreHook(s.hook) }
+
+func (s *verifStore) arm(kind string) {
+	s.mu.Lock()
+	s.armed, s.hits = kind, 0
+	s.mu.Unlock()
+}
+
+func (s *verifStore) disarm() int {
+	s.mu.Lock()
+	defer s.mu.Unlock()
+	s.armed = ""
+	return s.hits
 }
 
 func (s *verifStore) setDown() {
@@ -70,7 +167,9 @@ func (s *verifStore) setDown() {
 	if s.hard {
 		s.mr.Close()
 	} else {
-		s.mr.SetError("ERR verif outage")
+		s.mu.Lock()
+		s.hdown = true
+		s.mu.Unlock()
 	}
 }
 
@@ -80,11 +179,64 @@ func (s *verifStore) setUp() error {
 	}
 	s.down = false
 	if s.hard {
-		return s.mr.Restart()
+		if err := s.mr.Restart(); err != nil {
+			return err
+		}
+		s.install()
+		return nil
 	}
-	s.mr.SetError("")
+	s.mu.Lock()
+	s.hdown = false
+	s.mu.Unlock()
 	return nil
 }
+
+// a request context whose deadline "passes" exactly when the executor says so (no real waiting):
+// valid during the call, Err() = context.DeadlineExceeded from the moment the call has returned
+type verifDeadlineCtx struct {
+	mu   sync.Mutex
+	done chan struct{}
+	err  error
+	at   time.Time
+}
+
+func (c *verifDeadlineCtx) Deadline() (time.Time, bool) { return c.at, true }
+func (c *verifDeadlineCtx) Done() <-chan struct{}       { return c.done }
+func (c *verifDeadlineCtx) Value(any) any               { return nil }
+func (c *verifDeadlineCtx) Err() error {
+	c.mu.Lock()
+	defer c.mu.Unlock()
+	return c.err
+}
+func (c *verifDeadlineCtx) expire() {
+	c.mu.Lock()
+	defer c.mu.Unlock()
+	if c.err == nil {
+		c.err = context.DeadlineExceeded
+		close(c.done)
+	}
+}
+
+// the request contexts of a case
+type verifCtxs struct{}
+
+func (x *verifCtxs) make(kind string) (context.Context, func()) {
+	switch kind {
+	case "live": // a request-scoped context: cancelled when the request is over
+		ctx, cancel := context.WithCancel(context.Background())
+		return ctx, cancel
+	case "deadline": // still valid during the call, past by the time the store recovers
+		ctx := &verifDeadlineCtx{done: make(chan struct{}), at: time.Now().Add(time.Hour)}
+		return ctx, ctx.expire
+	case "cancelled":
+		ctx, cancel := context.WithCancel(context.Background())
+		cancel()
+		return ctx, func() {}
+	}
+	return context.Background(), func() {}
+}
+
+func (x *verifCtxs) release() {}
 
 func verifPeriodOnce(c verifCase) (out verifOut) {
 	out = verifOut{ID: c.ID}
@@ -94,10 +246,13 @@ func verifPeriodOnce(c verifCase) (out verifOut) {
 		return
 	}
 	st := &verifStore{mr: mr, hard: c.Hard}
+	st.install()
+	cx := &verifCtxs{}
 	defer func() {
 		if st.down {
 			st.setUp()
 		}
+		cx.release()
 		verifPark(mr)
 	}()
 	var opts []PeriodOption
@@ -115,16 +270,35 @@ func verifPeriodOnce(c verifCase) (out verifOut) {
 	lims := make([]*PeriodLimit, c.Lims)
 	for i := range lims {
 		// separate Redis objects = separate callers (they share go-zero's per-address client)
-		lims[i] = NewPeriodLimit(c.Period, c.Quota, redis.New(mr.Addr()), "p:", opts...)
+		lims[i] = NewPeriodLimit(c.Period, c.Quota, redis.New(mr.Addr()), c.Prefix, opts...)
 	}
 	for _, op := range c.Ops {
 		switch op[0].(string) {
-		case "take":
-			code, err := lims[vnum(op[1])].Take(c.Keys[vnum(op[2])])
+		case "take": // ["take", lim, key, {"ctx": kind, "fault": kind}]
+			o := vopts(op, 3)
+			fault := vstr(o, "fault")
+			if fault != "" {
+				st.arm(fault)
+			}
+			var code int
+			var err error
+			if kind := vstr(o, "ctx"); kind != "" {
+				ctx, done := cx.make(kind)
+				code, err = lims[vnum(op[1])].TakeCtx(ctx, c.Keys[vnum(op[2])])
+				done()
+			} else {
+				code, err = lims[vnum(op[1])].Take(c.Keys[vnum(op[2])])
+			}
+			if fault != "" {
+				if hits := st.disarm(); hits != 1 {
+					out.Err = "fault intercepted " + strconv.Itoa(hits) + " commands"
+					return
+				}
+			}
 			// third component: the circuit breaker let the command through
 			out.Obs = append(out.Obs, []any{code, err != nil, !errors.Is(err, breaker.ErrServiceUnavailable)})
 		case "ttl":
-			k := "p:" + c.Keys[vnum(op[1])]
+			k := c.Prefix + c.Keys[vnum(op[1])]
 			switch {
 			case !mr.Exists(k):
 				out.Obs = append(out.Obs, map[string]int64{"ttl": -2})
@@ -147,7 +321,7 @@ func verifPeriodOnce(c verifCase) (out verifOut) {
 			out.Obs = append(out.Obs, nil)
 		case "poke":
 			if !st.down {
-				mr.Set("p:"+c.Keys[vnum(op[1])], op[2].(string))
+				mr.Set(c.Prefix+c.Keys[vnum(op[1])], op[2].(string))
 			}
 			out.Obs = append(out.Obs, nil)
 		default:
@@ -180,21 +354,29 @@ func verifMonitor(l *TokenLimiter) bool {
 	return l.monitorStarted
 }
 
-// wait until every running monitor has seen the (reachable) store: at most ~pingInterval
-func verifSync(lims []*TokenLimiter) bool {
-	deadline := time.Now().Add(5 * time.Second)
-	for _, l := range lims {
-		for !verifAlive(l) || verifMonitor(l) {
+// wait until every running monitor has seen the (reachable) store: normally ~pingInterval.  An
+// instance that has not switched back after `patience` (>= 20 monitor periods) is reported as
+// such (alive = false); that is an observation, judged by the check, not an executor error.
+func verifSync(lims []*TokenLimiter, patience time.Duration) []bool {
+	deadline := time.Now().Add(patience)
+	res := make([]bool, len(lims))
+	for i, l := range lims {
+		for {
+			if verifAlive(l) && !verifMonitor(l) {
+				res[i] = true
+				break
+			}
 			if !verifAlive(l) && !verifMonitor(l) {
-				return false // dead without a monitor: would never recover
+				break // dead without a monitor: would never recover
 			}
 			if time.Now().After(deadline) {
-				return false
+				res[i] = verifAlive(l)
+				break
 			}
 			time.Sleep(2 * time.Millisecond)
 		}
 	}
-	return true
+	return res
 }
 
 func verifTokenOnce(c verifCase) (out verifOut) {
@@ -205,46 +387,102 @@ func verifTokenOnce(c verifCase) (out verifOut) {
 		return
 	}
 	st := &verifStore{mr: mr, hard: c.Hard}
+	st.install()
+	cx := &verifCtxs{}
 	lims := make([]*TokenLimiter, c.N)
+	patience := 2 * time.Second
+	if c.Breaker {
+		patience = 6 * time.Second // an open breaker also rejects the monitor's pings for a while
+	}
 	defer func() {
 		// let monitors finish so that no goroutine keeps pinging a dead port
 		if st.down {
 			st.setUp()
 		}
-		verifSync(lims)
+		cx.release()
+		verifSync(lims, 300*time.Millisecond)
 		verifPark(mr)
 	}()
 	expect := make([]bool, c.N)
 	for i := range lims {
-		lims[i] = NewTokenLimiter(c.Rate, c.Burst, redis.New(mr.Addr()), "tk")
+		lims[i] = NewTokenLimiter(c.Rate, c.Burst, redis.New(mr.Addr()), c.Key)
 		expect[i] = true
 	}
 	clock := c.BaseMs
+	var sec int64
+	if c.Wall {
+		// Allow() / AllowCtx() read time.Now(): the case runs on the wall clock at whole-second
+		// granularity (all the script uses); the model's clock starts at the sampled second
+		sec = time.Now().Unix()
+		clock = sec * 1000
+		out.BaseMs = clock
+	}
 	for _, op := range c.Ops {
 		switch op[0].(string) {
-		case "allow":
+		case "allow": // ["allow", i, n, {"skew": ms, "api": .., "ctx": kind, "fault": kind}]
 			i := vnum(op[1])
+			n := int(vnum(op[2]))
+			o := vopts(op, 3)
 			now := clock
-			if len(op) > 3 {
-				now += vnum(op[3]) // deliberate clock skew of the caller
+			if v, ok := o["skew"].(float64); ok {
+				now += int64(v) // deliberate clock skew of the caller
 			}
 			before := verifAlive(lims[i])
 			if before != expect[i] {
 				out.Disturbed = true // a monitor ticked at an unplanned moment
 			}
+			fault := vstr(o, "fault")
+			if fault != "" {
+				st.arm(fault)
+			}
 			cmds := mr.CommandCount()
-			ok := lims[i].AllowN(time.UnixMilli(now), int(vnum(op[2])))
+			ctx, done := cx.make(vstr(o, "ctx"))
+			var ok bool
+			switch vstr(o, "api") {
+			case "AllowNCtx":
+				ok = lims[i].AllowNCtx(ctx, time.UnixMilli(now), n)
+			case "Allow":
+				ok = lims[i].Allow()
+			case "AllowCtx":
+				ok = lims[i].AllowCtx(ctx)
+			default:
+				ok = lims[i].AllowN(time.UnixMilli(now), n)
+			}
+			done()
+			if fault != "" {
+				want := 0
+				if before {
+					want = 1
+				}
+				if hits := st.disarm(); hits != want {
+					out.Err = "fault intercepted " + strconv.Itoa(hits) + " commands"
+					return
+				}
+			}
+			if c.Wall && time.Now().Unix() != sec {
+				out.Disturbed = true // the second changed during the call
+			}
 			after := verifAlive(lims[i])
 			expect[i] = after
 			// the reply of the script is not visible through AllowN: the circuit breaker cut the
 			// call off iff the instance fell back although the store is up and no command arrived
-			brk := !(before && !after && !st.down && mr.CommandCount() == cmds)
+			brk := !(before && !after && !st.down && fault == "" && mr.CommandCount() == cmds)
 			out.Obs = append(out.Obs, []bool{ok, before, after, brk})
 		case "adv":
 			d := vnum(op[1])
 			clock += d
 			mr.FastForward(time.Duration(d) * time.Millisecond)
 			out.Obs = append(out.Obs, nil)
+		case "nextsec": // wall cases: wait for the next wall-clock second
+			for time.Now().Unix() == sec {
+				time.Sleep(time.Duration(1000-time.Now().UnixMilli()%1000+3) * time.Millisecond)
+			}
+			ns := time.Now().Unix()
+			d := (ns - sec) * 1000
+			sec = ns
+			clock += d
+			mr.FastForward(time.Duration(d) * time.Millisecond)
+			out.Obs = append(out.Obs, map[string]int64{"adv": d})
 		case "down":
 			st.setDown()
 			out.Obs = append(out.Obs, nil)
@@ -256,19 +494,26 @@ func verifTokenOnce(c verifCase) (out verifOut) {
 				}
 			}
 			if !st.down {
-				if !verifSync(lims) {
-					out.Err = "monitors did not recover"
-					return
-				}
+				alive := verifSync(lims, patience)
 				for i := range expect {
-					expect[i] = true
+					expect[i] = alive[i]
 				}
+				out.Obs = append(out.Obs, map[string][]bool{"alive": alive})
+			} else {
+				out.Obs = append(out.Obs, nil)
 			}
-			out.Obs = append(out.Obs, nil)
 		default:
 			out.Err = "unknown op"
 			return
 		}
+	}
+	st.mu.Lock()
+	pings := st.pings
+	st.mu.Unlock()
+	if !c.Breaker && pings > 1 {
+		// the outage lasted long enough in real time for monitor pings to fail: they feed go-zero's
+		// circuit breaker, which is outside the model - run the case again
+		out.Disturbed = true
 	}
 	return
 }
@@ -306,13 +551,37 @@ func TestVerifC03(t *testing.T) {
 			mr.Close()
 		}
 	}()
-	for _, c := range cases {
-		var out verifOut
-		if c.Kind == "period" {
-			out = verifPeriod(c)
-		} else {
-			out = verifToken(c)
-		}
+	// cases are independent (own server, own limiter objects): a small worker pool hides the
+	// real-time waits (100 ms monitor ticks, deadlines, wall-clock seconds)
+	outs := make([]verifOut, len(cases))
+	var wg sync.WaitGroup
+	next := int64(-1)
+	for k := 0; k < 6; k++ {
+		wg.Add(1)
+		go func() {
+			defer wg.Done()
+			for {
+				j := int(atomic.AddInt64(&next, 1))
+				if j >= len(cases) {
+					return
+				}
+				func() {
+					defer func() {
+						if r := recover(); r != nil {
+							outs[j] = verifOut{ID: cases[j].ID, Err: "panic"}
+						}
+					}()
+					if cases[j].Kind == "period" {
+						outs[j] = verifPeriod(cases[j])
+					} else {
+						outs[j] = verifToken(cases[j])
+					}
+				}()
+			}
+		}()
+	}
+	wg.Wait()
+	for _, out := range outs {
 		b, _ := json.Marshal(out)
 		w.Write(b)
 		w.WriteByte('\n')
